@@ -369,7 +369,7 @@ AISLE_CASES = [
     ("[a]\nx\n[a]\n", "DuplicateCategory"),
     ("[a]\nx|y\n[b]\ny\n", "DuplicateIngredient"),
     ("[a]\nx | x\n", "DuplicateIngredient"),
-    ("[a]\n|", "DuplicateIngredient"),
+    ("[a]\n|", ("DuplicateIngredient", [["a", []]], [["a", [[]]]])),      # two empty names: refused today; dropping empty names would be fine too
     ("[a]\n[a]", "DuplicateCategory"),
 ]
 
@@ -381,7 +381,8 @@ def aisle_vectors(run, nat):
         got = r.get("error_kind") if isinstance(r, dict) and r.get("error_kind") else (r.get("categories") if isinstance(r, dict) else None)
         if isinstance(r, dict) and r.get("error_kind") and r.get("span_ok") is False:
             return "aisle::parse(%r): the spans %r of the %s error do not lie inside the input / on the offending text" % (text, r.get("spans"), r.get("error_kind"))
-        if not isinstance(r, dict) or r.get("panic") or "error" in r or got != want:
+        acceptable = list(want) if isinstance(want, tuple) else [want]
+        if not isinstance(r, dict) or r.get("panic") or "error" in r or got not in acceptable:
             return "aisle::parse(%r) = %r, documented: %r" % (text, r if not isinstance(r, dict) or "error" in r or r.get("panic") else got, want)
     return None
 
